@@ -99,49 +99,111 @@ theorem makeRoom_spec (r : Reader) (ip : RecordPos)
 theorem noFail_suffix {a b : List ReadEv} (h : NoFail (a ++ b)) : NoFail b :=
   fun e he k => h e (List.mem_append_right a he) k
 
-/-- a refill keeps the window invariant and (re-)establishes the knowledge about the end -/
-theorem fill_win (inp : List UInt8) (G : Prop) (r : Reader) (hb : Win inp G r) :
-    ∃ br' ext n, fillBuf r.br = (br', .ok n) ∧ br'.buf = r.br.buf ++ ext ∧ br'.cap = r.br.cap ∧
+/-- a refill keeps the window invariant, whether it succeeds or fails -/
+theorem fill_win_any (inp : List UInt8) (G : Prop) (r : Reader) (hb : Win inp G r) :
+    ∃ br' ext res, fillBuf r.br = (br', res) ∧ br'.buf = r.br.buf ++ ext ∧ br'.cap = r.br.cap ∧
       br'.src.cursor = r.br.src.cursor + ext.length ∧
-      ext.length = min (r.br.cap - r.br.buf.length) (inp.length - r.br.src.cursor) ∧
-      Win inp G { r with br := br' } ∧ Eof inp { r with br := br' } ∧ n = ext.length := by
-  obtain ⟨br', n, hfill⟩ := fillBuf_noFail_ok r.br hb.nofail
-  obtain ⟨hn, used, hstep⟩ := fillBuf_ok r.br br' n hfill
+      ext.length ≤ min (r.br.cap - r.br.buf.length) (inp.length - r.br.src.cursor) ∧
+      Win inp G { r with br := br' } ∧
+      (∀ n, res = .ok n → n = ext.length ∧
+        ext.length = min (r.br.cap - r.br.buf.length) (inp.length - r.br.src.cursor)) ∧
+      (∀ k, res = .error k → ¬ G) := by
   have hrem : r.br.src.remaining = inp.length - r.br.src.cursor := by
     simp only [Src.remaining, hb.inp_eq]
-  rw [hrem] at hn
-  have hlen : ((r.br.src.inp.drop r.br.src.cursor).take n).length = n := by
-    apply length_take_drop
-    rw [hb.inp_eq]; omega
-  have hlen' : ((inp.drop r.br.src.cursor).take n).length = n := by rw [← hb.inp_eq]; exact hlen
   have hcur := hb.cur_le
   have hlen_le := hb.len_le
   have hlc := hb.len_cur
-  refine ⟨br', (r.br.src.inp.drop r.br.src.cursor).take n, n, hfill, hstep.buf, hstep.cap,
-    by rw [hstep.cursor, hlen], by rw [hlen, hn], ?_, ?_, hlen.symm⟩
-  · refine ⟨?_, ?_, ?_, hb.polwf, hb.polg, ?_, ?_, ?_, ?_, ?_,
-      by simp only [hstep.seekFails]; exact hb.nosf⟩
-    · simp only [hstep.inp, hb.inp_eq]
-    · simp only [hstep.cursor]; omega
-    · simp only
-      have := hstep.script
-      exact noFail_suffix (this ▸ hb.nofail)
-    · simp only [hstep.cap]; exact hb.cap3
-    · simp only [hstep.cap, hstep.buf, List.length_append, hlen]; omega
-    · simp only [hstep.buf, hstep.cursor, List.length_append, hlen]; omega
-    · simp only [hstep.buf, hstep.cursor, hb.inp_eq, List.length_append, hlen']
-      have : r.br.src.cursor + n - (r.br.buf.length + n) = r.br.src.cursor - r.br.buf.length := by
+  -- the common part: `m` bytes of the input are appended
+  have common : ∀ (br' : BufRd) (m : Nat) (rest : List ReadEv),
+      m ≤ min (r.br.cap - r.br.buf.length) (inp.length - r.br.src.cursor) →
+      br'.buf = r.br.buf ++ (r.br.src.inp.drop r.br.src.cursor).take m → br'.cap = r.br.cap →
+      br'.src.inp = r.br.src.inp → br'.src.cursor = r.br.src.cursor + m →
+      (G → NoFail br'.src.script) → (G → br'.src.seekFails = []) →
+      ((r.br.src.inp.drop r.br.src.cursor).take m).length = m ∧
+        Win inp G { r with br := br' } := by
+    intro br' m rest hm hbuf hcap hinp hcu hnf hsf
+    have hlen : ((r.br.src.inp.drop r.br.src.cursor).take m).length = m := by
+      apply length_take_drop
+      rw [hb.inp_eq]; omega
+    have hlen' : ((inp.drop r.br.src.cursor).take m).length = m := by
+      rw [← hb.inp_eq]; exact hlen
+    refine ⟨hlen, ?_, ?_, hnf, hb.polwf, hb.polg, ?_, ?_, ?_, ?_, ?_, ?_⟩
+    · simp only [hinp, hb.inp_eq]
+    · simp only [hcu]; omega
+    · simp only [hcap]; exact hb.cap3
+    · simp only [hcap, hbuf, List.length_append, hlen]; omega
+    · simp only [hbuf, hcu, List.length_append, hlen]; omega
+    · simp only [hbuf, hcu, hb.inp_eq, List.length_append, hlen']
+      have : r.br.src.cursor + m - (r.br.buf.length + m) = r.br.src.cursor - r.br.buf.length := by
         omega
       rw [this, hb.full, List.append_assoc]
       congr 1
       rw [← List.drop_drop]
-      exact (List.take_append_drop n _).symm
-    · simp only [hstep.buf, hstep.cursor, List.length_append, hlen]
+      exact (List.take_append_drop m _).symm
+    · simp only [hbuf, hcu, List.length_append, hlen]
       have := hb.byte_pos
       omega
-  · intro hlt
-    simp only [hstep.cap, hstep.buf, List.length_append, hlen, hstep.cursor] at hlt ⊢
+    · exact hsf
+  rcases h : fillBuf r.br with ⟨br', res⟩
+  cases res with
+  | ok n =>
+    obtain ⟨hn, used, hstep⟩ := fillBuf_ok r.br br' n h
+    rw [hrem] at hn
+    obtain ⟨hlen, hw⟩ := common br' n [] (by rw [hn]; exact Nat.le_refl _) hstep.buf hstep.cap
+      hstep.inp hstep.cursor
+      (fun hG => noFail_suffix (hstep.script ▸ hb.nofail hG))
+      (fun hG => by rw [hstep.seekFails]; exact hb.nosf hG)
+    exact ⟨br', _, _, rfl, hstep.buf, hstep.cap, by rw [hstep.cursor, hlen],
+      by rw [hlen, hn]; exact Nat.le_refl _, hw,
+      fun n' hn' => (by cases hn'; exact ⟨hlen.symm, by rw [hlen, hn]⟩), fun k hk => (by cases hk)⟩
+  | error k =>
+    obtain ⟨b0, m, used, hstep, hs, hbf, hc, hi, hcu⟩ := fillBufAux_error _ r.br 0 br' k h
+    have hm := hstep.le
+    rw [hrem] at hm
+    have hG : ¬ G := by
+      intro hG
+      have := hb.nofail hG
+      rw [hstep.script, hs] at this
+      exact this (.fail k) (by simp) k rfl
+    obtain ⟨hlen, hw⟩ := common br' m [] hm (by rw [hbf, hstep.buf]) (by rw [hc, hstep.cap])
+      (by rw [hi, hstep.inp]) (by rw [hcu, hstep.cursor]) (fun h => absurd h hG)
+      (fun h => absurd h hG)
+    exact ⟨br', _, _, rfl, by rw [hbf, hstep.buf], by rw [hc, hstep.cap],
+      by rw [hcu, hstep.cursor, hlen], by rw [hlen]; exact hm, hw,
+      fun n' hn' => (by cases hn'), fun k' _ => hG⟩
+
+/-- a refill that succeeds (re-)establishes the knowledge about the end -/
+theorem fill_cases (inp : List UInt8) (G : Prop) (r : Reader) (hb : Win inp G r) :
+    (∃ br' ext n, fillBuf r.br = (br', .ok n) ∧ br'.buf = r.br.buf ++ ext ∧ br'.cap = r.br.cap ∧
+      br'.src.cursor = r.br.src.cursor + ext.length ∧
+      ext.length = min (r.br.cap - r.br.buf.length) (inp.length - r.br.src.cursor) ∧
+      Win inp G { r with br := br' } ∧ Eof inp { r with br := br' } ∧ n = ext.length) ∨
+    (∃ br' ext k, fillBuf r.br = (br', .error k) ∧ br'.buf = r.br.buf ++ ext ∧
+      br'.cap = r.br.cap ∧ br'.src.cursor = r.br.src.cursor + ext.length ∧
+      ext.length ≤ min (r.br.cap - r.br.buf.length) (inp.length - r.br.src.cursor) ∧
+      ¬ G ∧ Win inp G { r with br := br' }) := by
+  obtain ⟨br', ext, res, hfill, hbuf, hcap, hcur, hle, hw, hok, herr⟩ := fill_win_any inp G r hb
+  cases res with
+  | ok n =>
+    obtain ⟨hn, hext⟩ := hok n rfl
+    refine Or.inl ⟨br', ext, n, hfill, hbuf, hcap, hcur, hext, hw, ?_, hn⟩
+    intro hlt
+    have := hb.cur_le
+    have := hb.len_le
+    simp only [hcap, hbuf, List.length_append, hcur] at hlt ⊢
     omega
+  | error k =>
+    exact Or.inr ⟨br', ext, k, hfill, hbuf, hcap, hcur, hle, herr k rfl, hw⟩
+
+/-- in an ideal environment the refill succeeds -/
+theorem fill_win (inp : List UInt8) (G : Prop) (hG : G) (r : Reader) (hb : Win inp G r) :
+    ∃ br' ext n, fillBuf r.br = (br', .ok n) ∧ br'.buf = r.br.buf ++ ext ∧ br'.cap = r.br.cap ∧
+      br'.src.cursor = r.br.src.cursor + ext.length ∧
+      ext.length = min (r.br.cap - r.br.buf.length) (inp.length - r.br.src.cursor) ∧
+      Win inp G { r with br := br' } ∧ Eof inp { r with br := br' } ∧ n = ext.length := by
+  rcases fill_cases inp G r hb with h | ⟨br', ext, k, -, -, -, -, -, hnG, -⟩
+  · exact h
+  · exact absurd hG hnG
 
 /-! ## the loop -/
 
@@ -183,6 +245,22 @@ theorem resume_room (f : Nat) (ip : RecordPos) (mk : Bool) (r r1 : Reader) (br' 
   simp only [hp, Bool.false_eq_true, if_false, hg, hfill, resumeK]
   generalize searchIncomplete _ _ = v
   rcases v with ⟨r', ((_ | _) | _ | _ | _)⟩ <;> rfl
+
+theorem resume_grow_err (f : Nat) (ip : RecordPos) (mk : Bool) (r r1 : Reader) (br' : BufRd)
+    (k : IoKind) (h : ¬ r.br.buf.length < r.br.cap)
+    (hp : (!mk || decide (r.bp.pos0 = 0)) = true)
+    (hg : grow r = (r1, .ok ())) (hfill : fillBuf r1.br = (br', .error k)) :
+    resume (f + 1) ip mk r = ({ r1 with br := br', state := .finished }, .err (.io k)) := by
+  rw [resume, if_neg h]
+  simp only [hp, if_true, hg, hfill]
+
+theorem resume_room_err (f : Nat) (ip : RecordPos) (mk : Bool) (r r1 : Reader) (br' : BufRd)
+    (k : IoKind) (h : ¬ r.br.buf.length < r.br.cap)
+    (hp : (!mk || decide (r.bp.pos0 = 0)) = false)
+    (hg : makeRoom r ip = some r1) (hfill : fillBuf r1.br = (br', .error k)) :
+    resume (f + 1) ip mk r = ({ r1 with br := br', state := .finished }, .err (.io k)) := by
+  rw [resume, if_neg h]
+  simp only [hp, Bool.false_eq_true, if_false, hg, hfill]
 
 /-- measure of the loop: unread input, plus one while the buffer is full -/
 def mu (inp : List UInt8) (r : Reader) : Nat :=
@@ -280,8 +358,6 @@ theorem resume_spec (inp : List UInt8) (G : Prop) (mk : Bool) (f : Nat) :
             obtain ⟨a, b, c, d, e, f, g, i, w, k, z⟩ := hw
             subst hr1
             exact ⟨a, b, c, d, e, by simp only [growOk]; omega, by simp only [growOk]; omega, i, w, k, z⟩
-          obtain ⟨br', ext, m, hfill, hbuf, hcap, hcur, hext, hw2, he2, -⟩ := fill_win inp G r1 hw1
-          rw [resume_grow f ip mk r r1 br' m hlt hp hg hfill]
           have e1 : r1.br.buf = r.br.buf := by subst hr1; rfl
           have e2 : r1.bp = r.bp := by subst hr1; rfl
           have e3 : r1.byte = r.byte := by subst hr1; rfl
@@ -289,6 +365,29 @@ theorem resume_spec (inp : List UInt8) (G : Prop) (mk : Bool) (f : Nat) :
           have e5 : r1.state = r.state := by subst hr1; rfl
           have e6 : r1.br.cap = n := by subst hr1; rfl
           have e7 : r1.br.src.cursor = r.br.src.cursor := by subst hr1; rfl
+          have e8 : r1.log = r.log ++ [(r.br.cap, some n)] := by subst hr1; rfl
+          have hunfit : mk = true → ¬ Fits (inp.drop r.byte) r.br.cap := by
+            intro hmk
+            rw [hmk] at hp
+            have h0 : r.bp.pos0 = 0 := by simpa using hp
+            have := scan_unfit (rest := inp.drop r.br.src.cursor) hsc h0
+            rw [hb.win, h0, List.drop_zero, ← hfull]
+            exact this
+          rcases fill_cases inp G r1 hw1 with
+            ⟨br', ext, m, hfill, hbuf, hcap, hcur, hext, hw2, he2, -⟩ |
+            ⟨br', ext, k, hfill, hbuf, hcap, hcur, hle, hnG, hw2⟩
+          rotate_left
+          · -- the refill fails
+            rw [resume_grow_err f ip mk r r1 br' k hlt hp hg hfill]
+            refine ⟨Or.inr (Or.inr (Or.inr ⟨_, rfl, trivial, hnG, rfl, hw2.set_state _⟩)),
+              fun _ => ⟨ext, by simp only [hbuf, e1]⟩,
+              [(r.br.cap, some n)], false, by simp only [e8],
+              GrowLog.grant _ _ _ _ _ hn (by simp only [hcap, e6]; exact GrowLog.nil _),
+              ⟨fun h => (by cases h), fun h => (by cases h)⟩, ?_⟩
+            intro hmk c a hmem
+            simp only [List.mem_singleton, Prod.mk.injEq] at hmem
+            rw [hmem.1]; exact hunfit hmk
+          rw [resume_grow f ip mk r r1 br' m hlt hp hg hfill]
           have hb2 : Base inp G { r1 with br := br' } :=
             ⟨hw2, by simp only [hbuf, e1, e2, List.length_append]; have := hb.pos0_le; omega⟩
           have := resumeK_spec inp G f ip mk { r1 with br := br' } ih hb2 he2
@@ -297,14 +396,6 @@ theorem resume_spec (inp : List UInt8) (G : Prop) (mk : Bool) (f : Nat) :
               simp only [mu, hcur, hcap, hbuf, List.length_append, e1, e6, e7] at hext ⊢
               split <;> omega)
           obtain ⟨hfound, hext, new, b, hl1, hl2, hl3, hl4⟩ := this
-          have hunfit : mk = true → ¬ Fits (inp.drop r.byte) r.br.cap := by
-            intro hmk
-            rw [hmk] at hp
-            have h0 : r.bp.pos0 = 0 := by simpa using hp
-            have := scan_unfit (rest := inp.drop r.br.src.cursor) hsc h0
-            rw [hb.win, h0, List.drop_zero, ← hfull]
-            exact this
-          have e8 : r1.log = r.log ++ [(r.br.cap, some n)] := by subst hr1; rfl
           refine ⟨by simpa only [e3, e4, e5] using hfound, fun hmk => ?_,
             (r.br.cap, some n) :: new, b, ?_, ?_, hl3, ?_⟩
           · obtain ⟨e, he⟩ := hext hmk
@@ -326,7 +417,8 @@ theorem resume_spec (inp : List UInt8) (G : Prop) (mk : Bool) (f : Nat) :
             have := scan_unfit (rest := inp.drop r.br.src.cursor) hsc h0
             rw [hb.win, h0, List.drop_zero, ← hfull]
             exact this
-          refine ⟨Or.inr (Or.inr (Or.inr ⟨rfl, ?_, rfl, ?_, he⟩)), fun _ => ⟨[], by simp [growNo]⟩,
+          refine ⟨Or.inr (Or.inr (Or.inr ⟨_, rfl, trivial, ?_, rfl, ?_⟩)),
+            fun _ => ⟨[], by simp [growNo]⟩,
             [(r.br.cap, none)], true, rfl, GrowLog.refuse _, ⟨fun _ => rfl, fun _ => rfl⟩, ?_⟩
           rotate_left 2
           · intro hmk c a hmem
@@ -358,8 +450,6 @@ theorem resume_spec (inp : List UInt8) (G : Prop) (mk : Bool) (f : Nat) :
                 (r.br.src.cursor - r.br.buf.length) + r.bp.pos0 := by omega
             rw [this, ← List.drop_drop, w, List.drop_append_of_le_length hp0]
           · simp only [BufRd.consume, shiftBp, List.length_drop]; omega
-        obtain ⟨br', ext, m, hfill, hbuf, hcap, hcur, hext, hw2, he2, -⟩ := fill_win inp G r1 hw1
-        rw [resume_room f ip mk r r1 br' m hlt hp hmr hfill]
         have e1 : r1.br.buf = r.br.buf.drop r.bp.pos0 := by subst hr1; rfl
         have e2 : r1.bp = shiftBp r.bp ip := by subst hr1; rfl
         have e3 : r1.byte = r.byte := by subst hr1; rfl
@@ -367,6 +457,18 @@ theorem resume_spec (inp : List UInt8) (G : Prop) (mk : Bool) (f : Nat) :
         have e5 : r1.state = r.state := by subst hr1; rfl
         have e6 : r1.br.cap = r.br.cap := by subst hr1; rfl
         have e7 : r1.br.src.cursor = r.br.src.cursor := by subst hr1; rfl
+        have e8 : r1.log = r.log := by subst hr1; rfl
+        rcases fill_cases inp G r1 hw1 with
+          ⟨br', ext, m, hfill, hbuf, hcap, hcur, hext, hw2, he2, -⟩ |
+          ⟨br', ext, k, hfill, hbuf, hcap, hcur, hle, hnG, hw2⟩
+        rotate_left
+        · -- the refill fails
+          rw [resume_room_err f ip mk r r1 br' k hlt hp hmr hfill]
+          refine ⟨Or.inr (Or.inr (Or.inr ⟨_, rfl, trivial, hnG, rfl, hw2.set_state _⟩)),
+            fun hmk => ?_, LogOk.same e8 (by simp only [hcap, e6]) (by intro h; cases h)⟩
+          rw [hmk] at hp
+          simp at hp
+        rw [resume_room f ip mk r r1 br' m hlt hp hmr hfill]
         have hb2 : Base inp G { r1 with br := br' } :=
           ⟨hw2, by simp only [e2, shiftBp]; omega⟩
         have := resumeK_spec inp G f ip mk { r1 with br := br' } ih hb2 he2
@@ -376,7 +478,6 @@ theorem resume_spec (inp : List UInt8) (G : Prop) (mk : Bool) (f : Nat) :
               List.length_drop] at hext ⊢
             split <;> omega)
         obtain ⟨hfound, -, new, b, hl1, hl2, hl3, hl4⟩ := this
-        have e8 : r1.log = r.log := by subst hr1; rfl
         refine ⟨by simpa only [e3, e4, e5] using hfound, fun hmk => ?_, new, b,
           by rw [hl1, e8], by simpa only [hcap, e6] using hl2, hl3, ?_⟩
         · rw [hmk] at hp
